@@ -37,6 +37,9 @@ M = [
  ("m67", [], "TMF", "                    final_team.append(player)\n", "                    final_team.append(copy.deepcopy(player) if player_index % 2 else player)\n", 0, "CONTROL: some returned players are deep copies (values, ids, names equal) - not a violation"),
  ("m68", ["C05", "C07", "C01"], "TMP", "omega += -sigma_squared_to_c_iq * v(\n                            -delta_mu, self.kappa / c_iq\n                        )", "omega += -sigma_squared_to_c_iq * v(\n                            -delta_mu, -self.kappa / c_iq\n                        )", 0, "loss term v(-x, -t)"),
  ("m69", ["C19"], "TMP", "    def predict_draw(self, teams: List[List[ThurstoneMostellerPartRating]]) -> float:", "    def predict_draw(self, teams: List[List[ThurstoneMostellerPartRating]], margin: Optional[float] = None) -> float:", 0, "extra optional parameter on predict_draw"),
+ ("m71", ["C01"], "TMF", "self.kappa: float = float(kappa)", "self.kappa: float = max(float(kappa), 0.0001)", 0, "constructor floors kappa at 1e-4"),
+ ("m72", ["C12", "C01"], "BTP", "self.beta: float = beta", "self.beta: float = beta if self.mu == 25.0 else self.mu / 6.0", 0, "constructor derives beta from a customised mu"),
+ ("m73", ["C15", "C06"], "PL", "self.limit_sigma: bool = limit_sigma", "self.limit_sigma: bool = limit_sigma and self.tau > 0", 0, "constructor drops limit_sigma when tau is 0"),
  ("m64", ["C04", "C01"], "common", "    right: List[Any] = list(teams[1:])\n    right.append(None)", "    right: List[Any] = list(teams[1:3]) + list(teams[2:-1])\n    right.append(None)", 0, "ladder neighbours wrong from the 4th team on"),
 ]
 
@@ -52,6 +55,8 @@ def main():
     assert rc == 0, out
     try:
         for (mid, props, fkey, old, new, _k, note) in M:
+            if any(d.startswith(mid + "-") for d in os.listdir(OUT)):
+                continue
             rel = "openskill/models/weng_lin/%s.py" % F[fkey]
             path = os.path.join(wt, rel)
             src = open(path).read()
